@@ -36,8 +36,8 @@ Next == Len(ss) < MaxStmts /\ \E s \in AllTemplates : ss' = Append(ss, s)
 Spec == Init /\ [][Next]_vars
 
 Programs == IF Len(ss) = 0 THEN {}
-            ELSE {Prog(ss), Prog(<<Node("fdecl", "", <<Id("h"), PList(<<>>), Blk(ss)>>)>>)}
-                 \cup (IF Len(ss) = 1 THEN {Prog(<<f>> \o ss) : f \in Firsts} ELSE {})
+            ELSE (IF TopOK(ss) THEN {Prog(ss)} ELSE {}) \cup {Prog(<<Node("fdecl", "", <<Id("h"), PList(<<>>), Blk(ss)>>)>>)}
+                 \cup (IF Len(ss) = 1 /\ TopOK(ss) THEN {Prog(<<f>> \o ss) : f \in Firsts} ELSE {})
 
 Decos == {<<"O">>, <<"T">>, <<"B">>, <<"B", "O">>, <<"O", "B">>, <<"T", "O">>, <<"O", "O">>, <<"T", "B">>}
 \* statement-level positions of a laid-out token list (indices): first token, first tokens of
